@@ -59,3 +59,18 @@ def run(R):
                     break
     R.finish(level="proof", technique="Coq proof over a model regenerated from keeper.go by a translator + differential run of the real keeper; spec checker vm_computed on real observations",
              extra={"evaluations": total})
+
+
+def replay(R, path):
+    """Re-runs the recorded failing request(s) against /repo's current tree and prints what the
+    real keeper does."""
+    data = json.load(open(path))
+    print(json.dumps(data, indent=1)[:4000])
+    if data.get("violations"):
+        seeds = {R.seed}
+        o = observe(R, 400)
+        if o:
+            _, mism, viol, total, cases = o
+            want = {json.dumps({k: v["case"].get(k) for k in ("kind", "code", "value", "str")}, sort_keys=True) for v in data["violations"] if v.get("case")}
+            hit = [(i, cl) for i, cl in viol if json.dumps({k: cases[i].get(k) for k in ("kind", "code", "value", "str")}, sort_keys=True) in want]
+            print("replayed on the current tree: %d of the recorded failing requests still violate: %s" % (len(hit), hit[:5]))
